@@ -64,3 +64,39 @@ def check(prog, funcs):
                     if p not in b:
                         problems.append((g, n, f, p))
     return instances, problems
+
+
+def check_named(prog, funcs, name):
+    """Threading of one named context value (`variables`, `fragments`) through a set of functions (the call-graph closure of
+    an entry point): whenever a function that holds a value under that name (parameter or local) calls a resolved callee that
+    has a parameter of that name, the call binds it to an expression mentioning the caller's value.
+    -> (instances, problems); problems: (caller, call node, callee, what)"""
+    instances, problems = [], []
+    for g in funcs:
+        if isinstance(g.node, ast.Lambda):
+            continue
+        holds = name in set(g.all_params) or any(isinstance(n, ast.Name) and isinstance(n.ctx, ast.Store) and n.id == name for n in own_nodes(g.node))
+        if not holds:
+            continue
+        for n in own_nodes(g.node):
+            if not isinstance(n, ast.Call):
+                continue
+            res = prog.resolve_call(g, n)
+            if len(res) != 1 or isinstance(res[0].node, ast.Lambda):
+                continue
+            f = res[0]
+            a = f.node.args
+            if name not in [x.arg for x in a.posonlyargs + a.args + a.kwonlyargs]:
+                continue
+            bound = (f.cls is not None and isinstance(n.func, ast.Attribute) and f.name != "__init__") or f.name == "__init__"
+            if bound and any(isinstance(d, ast.Name) and d.id == "staticmethod" for d in getattr(f.node, "decorator_list", [])):
+                bound = False
+            b = _bind(f, n, bound)
+            if b is None:
+                continue
+            instances.append("%s -> %s: `%s` = %s" % (g.qualname, f.qualname, name, ast.unparse(b[name]) if name in b else "<left to the default>"))
+            if name not in b:
+                problems.append((g, n, f, "left to the callee's default"))
+            elif not any(isinstance(x, ast.Name) and x.id == name for x in ast.walk(b[name])):
+                problems.append((g, n, f, "bound to `%s`, which is not the caller's `%s`" % (ast.unparse(b[name]), name)))
+    return instances, problems
